@@ -165,6 +165,59 @@ func (e *Engine) addFramePropObligations() {
 				"range over a Go map in "+fi.Key+" is order-insensitive (no callback, append or concatenation in its body)", site.why)
 		}
 	}
+	// ---- C11: the same for the generated parser (grammar actions and PEG runtime in roll.peg.go), as one summary each ----
+	{
+		var gw, gr []string
+		for f := range all {
+			fi := e.P.FuncByObj[f]
+			if fi == nil || !e.isGenerated(fi) || e.effects.InitFuncs[f] {
+				continue
+			}
+			fe := e.effects.Local[f]
+			if fe == nil {
+				continue
+			}
+			for v, pos := range fe.GlobalsWrite {
+				gw = append(gw, fi.Key+" assigns "+v.Name()+"@"+pos)
+			}
+			for v, pos := range fe.GlobalsRead {
+				if v.Pkg() == e.P.Pkg.Types && e.effects.GlobalWritten[v] {
+					gr = append(gr, fi.Key+" reads mutable "+v.Name()+"@"+pos)
+				}
+			}
+		}
+		sort.Strings(gw)
+		sort.Strings(gr)
+		e.frameObl("frame:roll.peg.go/no-global-write", []string{"C11"}, len(gw) == 0, "", "no function of the generated parser assigns a package-level variable", strings.Join(gw, "; "))
+		e.frameObl("frame:roll.peg.go/reads-only-immutable-globals", []string{"C11"}, len(gr) == 0, "", "the generated parser reads only package-level variables that are never assigned after initialisation", strings.Join(gr, "; "))
+	}
+	// ---- C11: no pointer to a package-level variable is taken on the API path: an object reached through such a pointer
+	// (a shared statistics block, a shared scratch struct) is shared by every context in the process ----
+	{
+		var bad []string
+		for f := range all {
+			fi := e.P.FuncByObj[f]
+			if fi == nil || fi.Decl == nil || fi.Decl.Body == nil || e.effects.InitFuncs[f] || fi.File == ContractsFileName {
+				continue
+			}
+			ast.Inspect(fi.Decl.Body, func(n ast.Node) bool {
+				u, ok := n.(*ast.UnaryExpr)
+				if !ok || u.Op != token.AND {
+					return true
+				}
+				root := rootIdent(u.X)
+				if root == nil {
+					return true
+				}
+				if v, ok := info.Uses[root].(*types.Var); ok && e.isPkgGlobal(v) && v.Pkg() == e.P.Pkg.Types && !throughPointer(info, u.X) {
+					bad = append(bad, fi.Key+" takes &"+e.exprStr(u.X)+" at "+e.posStr(u.Pos()))
+				}
+				return true
+			})
+		}
+		sort.Strings(bad)
+		e.frameObl("frame:api/no-address-of-global", []string{"C11"}, len(bad) == 0, "", "no function reachable from the exported API (generated parser included) takes the address of a package-level variable", strings.Join(bad, "; "))
+	}
 	// ---- C06: every dice roll reachable from a context draws from that context's source ----
 	e.rollSourceObligations()
 	// ---- C16: nothing on the parse/eval path writes a Context's configuration ----
